@@ -977,6 +977,7 @@ func (p *balloons) fillableBalloonInstances(blnDef *BalloonDef, fm FillMethod, c
 			}
 		}
 		undoFuncs = append(undoFuncs, func() {
+			p.forgetCpuClass(newBln)
 			p.freeCpus = p.freeCpus.Union(newBln.Cpus)
 			// the CPUs are idle again: share them with the balloons that share idle CPUs
 			p.updatePinning(p.shareIdleCpus(newBln.Cpus, cpuset.New())...)
